@@ -52,7 +52,9 @@ Qed.
 Lemma core_fx fx j0 ops :
   length (observe_fx fx j0 ops) = length ops /\ evict_guard j0 (observe_fx fx j0 ops)
   /\ absorbing j0 (observe_fx fx j0 ops) /\ timeout_deletes j0 (observe_fx fx j0 ops)
-  /\ at_most_once ops (observe_fx fx j0 ops) /\ frame j0 ops (observe_fx fx j0 ops).
+  /\ at_most_once ops (observe_fx fx j0 ops) /\ frame j0 ops (observe_fx fx j0 ops)
+  /\ (direct j0 = false -> evict_unbound false ops (observe_fx fx j0 ops))
+  /\ write_absorbing j0 (observe_fx fx j0 ops).
 Proof.
   rewrite observe_fx_eq. repeat match goal with |- _ /\ _ => split end.
   - apply obs_length.
@@ -61,12 +63,14 @@ Proof.
   - apply (trace_timeout fx ops (init_state j0) (W_init j0)).
   - apply trace_once. apply W_init.
   - apply (trace_frame fx ops (init_state j0)).
+  - intros D. apply (trace_unbound fx ops (init_state j0) false (W_init j0) (oinv_false _) D).
+  - apply (trace_wabs fx ops (init_state j0) (W_init j0)).
 Qed.
 
-(* clauses 1-7 *)
+(* clauses 1-7, 10, 11 *)
 Theorem core_all_histories j0 ops : C17_core j0 ops (observe_fx true j0 ops).
 Proof.
-  destruct (core_fx true j0 ops) as (L & G & A & T & O & F). unfold C17_core.
+  destruct (core_fx true j0 ops) as (L & G & A & T & O & F & U & Wa). unfold C17_core.
   repeat match goal with |- _ /\ _ => split end; auto.
   rewrite observe_fx_eq. intros D o e Io Ie Ev.
   apply (trace_guard true ops (init_state j0) (W_init j0) D o e Io Ie Ev). reflexivity.
@@ -81,9 +85,10 @@ Theorem prop_code_model j0 ops :
   prop_code j0 ops (observe j0 ops) = 0 \/ finding_code j0 ops (observe j0 ops) = 2.
 Proof.
   unfold observe. change recheck_same_node with true.
-  destruct (core_all_histories j0 ops) as (L & G & A & T & O & F & N).
+  destruct (core_all_histories j0 ops) as (L & G & A & T & O & F & N & U & Wa).
   assert (P := prop_code_tail j0 ops _ L G A T O F).
-  apply evict_other_nodeb_spec in N. rewrite N in P. cbn in P.
+  apply evict_other_nodeb_spec in N. apply unbound_guardb_spec in U. apply write_absorbingb_spec in Wa.
+  rewrite N, U, Wa in P. cbn in P.
   unfold finding_code. rewrite P.
   destruct (timeout_cleansb false j0 ops (observe_fx true j0 ops)); cbn; [left; reflexivity|right].
   rewrite leak_shape. reflexivity.
@@ -94,8 +99,9 @@ Theorem old_only_known_shapes j0 ops :
   prop_code j0 ops (observe_fx false j0 ops) = 0
   \/ finding_code j0 ops (observe_fx false j0 ops) = 1 \/ finding_code j0 ops (observe_fx false j0 ops) = 2.
 Proof.
-  destruct (core_fx false j0 ops) as (L & G & A & T & O & F).
+  destruct (core_fx false j0 ops) as (L & G & A & T & O & F & U & Wa).
   assert (P := prop_code_tail j0 ops _ L G A T O F).
+  apply unbound_guardb_spec in U. apply write_absorbingb_spec in Wa. rewrite U, Wa in P.
   unfold finding_code. rewrite P.
   destruct (evict_other_nodeb j0 (observe_fx false j0 ops)) eqn:N; cbn.
   - destruct (timeout_cleansb false j0 ops (observe_fx false j0 ops)); cbn; [left; reflexivity|right; right].
@@ -109,8 +115,8 @@ Qed.
 (* the corpus case f1: pod u1 on n1, reservation scheduled on n2, the eviction call fails once,
    the pod is replaced by u2 on n2, the retry evicts it *)
 Definition witness_f1 : list Z :=
-  [0;0;0;1;1;0;0;6; 2;1;1;1;2;1;0;0;0;0;0; 0;0;0;0;0;0;0;0;0;0;0; 1;1;1;2;2;1;0;1;0;0;0;
-   0;4;0;0;0;0;0;0;0;0;0; 2;1;2;2;2;1;0;0;0;0;0; 0;0;0;0;0;0;0;0;0;0;0].
+  [0;0;0;1;1;0;0;0;6; 2;1;1;1;2;1;0;0;0;0;0;0; 0;0;0;0;0;0;0;0;0;0;0;0; 1;1;1;2;2;1;0;1;0;0;0;1;
+   0;4;0;0;0;0;0;0;0;0;0;0; 2;1;2;2;2;1;0;0;0;0;0;0; 0;0;0;0;0;0;0;0;0;0;0;0].
 
 Theorem old_other_node_refuted :
   exists inp, let '(j0, ops) := decode inp in
@@ -121,7 +127,8 @@ Proof. exists witness_f1. vm_compute. split; reflexivity. Qed.
    the Update that records ReservationRef fails (4th write), the TTL passes before the next
    reconcile, the job is failed for timeout and the reservation it created still exists *)
 Definition witness_l1 : list Z :=
-  [0;0;5;1;1;0;0;4; 2;1;1;1;2;1;0;0;0;0;0; 0;8;0;0;0;0;0;0;0;0;0; 4;6;0;0;0;0;0;0;0;0;0; 0;0;0;0;0;0;0;0;0;0;0].
+  [0;0;5;1;1;0;0;0;4; 2;1;1;1;2;1;0;0;0;0;0;0; 0;8;0;0;0;0;0;0;0;0;0;0; 4;6;0;0;0;0;0;0;0;0;0;0;
+   0;0;0;0;0;0;0;0;0;0;0;0].
 
 Theorem timeout_leak_refuted :
   exists inp, let '(j0, ops) := decode inp in
